@@ -3,7 +3,7 @@
 # properties not claimed, with reason (kept current by hand)
 NOT_APPLICABLE = {}
 # hook commits in /repo (MANIFEST.hooks.source_commits)
-HOOK_COMMITS = ['ccf9035', 'f508266']
+HOOK_COMMITS = ['ccf9035', 'f508266', 'dd63c1f']
 
 # checks that are finished and registered in MANIFEST.json (others stay under not_applicable until ready)
-READY = ['C01', 'C04', 'C07', 'C08', 'C09', 'C10', 'C13', 'C14', 'C15', 'C16', 'C20']
+READY = ['C01', 'C04', 'C07', 'C08', 'C09', 'C10', 'C12', 'C13', 'C14', 'C15', 'C16', 'C19', 'C20']
